@@ -304,7 +304,7 @@ theorem core_upd_reach (σ : BState) (i j : Nat) :
     rw [blk_upd_same _ _ _ hl]
 
 theorem buildCfg_correct {env : Env} {p : Stmt} {rn : Bool} {g : Cfg} {st0 : Store} {o : Outcome} {st' : S}
-    (hu : userS p = true) (hs : hoistSafe p = true) (hsc : loopScoped p false = true)
+    (hu : userS p = true) (hsc : loopScoped p false = true)
     (hb : buildCfg rn p = .ok g) (hex : Exec env p (st0, []) o st') :
     ∃ (n : Nat) (c : Config), run env g.blocks n ⟨0, 0, (st0, []), none⟩ = some c ∧ c.b = 1 ∧
       c.s.2 = st'.2 ∧ agreeU c.s.1 st'.1 ∧
@@ -318,7 +318,7 @@ theorem buildCfg_correct {env : Env} {p : Stmt} {rn : Bool} {g : Cfg} {st0 : Sto
   have hlen2 : 2 ≤ (build p 0 (some 0) ⟨1, none, none⟩ initState).1.len := gr.touch.len
   have semf : ∀ bl, Ext (build p 0 (some 0) ⟨1, none, none⟩ initState).1 bl →
       PostS env bl ⟨1, none, none⟩ (build p 0 (some 0) ⟨1, none, none⟩ initState) o ⟨0, 0, (st0, []), none⟩ 0 st' :=
-    fun bl hx => ((sem_stmt hex).1 0 0 ⟨1, none, none⟩ initState bl false (st0, []) none hu hs hsc hJ h02 ho0
+    fun bl hx => ((sem_stmt hex).1 0 0 ⟨1, none, none⟩ initState bl false (st0, []) none hu hsc hJ h02 ho0
       hx (agreeU.refl _) rfl).1
   simp only [buildCfg] at hb
   generalize build p 0 (some 0) ⟨1, none, none⟩ initState = r at *
